@@ -186,7 +186,7 @@ def frames(D, sp, sig, T, tag):
         for ci in range(c):
             for t in range(T):
                 fid = (TCODE[(k, par)] * 5 + ci) * 70 + t + tag * 2500
-                ids[ci, t] = (fid * 64 + np.arange(npix)[:, None]) * 9 + np.arange(ncomp)[None, :]
+                ids[ci, t] = (fid * 64 + (np.arange(npix)[:, None] % 64)) * 9 + np.arange(ncomp)[None, :]
         out[(k, par)] = ids.reshape((c * T,) + sp + (D,) * k).astype(np.float32)
     return out
 
@@ -199,8 +199,8 @@ def run(case, ctx):
     rng = rng_for(ctx["seed"], ID, case["i"])
     T, p, f, dt, s = (case[k] for k in ("T", "p", "f", "dt", "s"))
     D = int(rng.choice([2, 2, 3]))
-    ds = int(rng.choice([0, 0, 1, 1, 2]))
-    sp = tuple(int(v) * (2**ds) for v in rng.integers(1, 3, size=D))
+    ds = int(rng.choice([0, 0, 1, 1, 2, 3])) if D == 2 else int(rng.choice([0, 0, 1, 1, 2]))
+    sp = tuple(int(v) * (2**ds) for v in (rng.integers(1, 3, size=D) if ds < 3 else rng.choice([1, 3], size=D)))
     dyn_sig = DYN[int(rng.integers(len(DYN)))]
     const_sig = CONST[int(rng.integers(len(CONST)))]
     if D == 3:
